@@ -1905,8 +1905,9 @@ impl CanonicalizeContext {
 				let child = as_element(children[i]);
 				let child_name = name(&child);
 
-				// numbers start with an mn or a decimal separator
-				if child_name == "mn" || child_name=="mtext"{
+				// numbers start with an mn (or digits someone put into an mtext) or a decimal separator
+				// other text (e.g., "if" or "about" in front of 1,234) is not the start of a number -- it used to stop the number after it from being formed
+				if child_name == "mn" || (child_name=="mtext" && !as_text(child).is_empty() && as_text(child).chars().all(|ch| ch.is_ascii_digit())) {
 					let leaf_child_text = as_text(child);
 					// if Roman numeral, don't merge (move on)
 					// or if the 'mn' has ',', '.', or space, consider it correctly parsed and move on
